@@ -59,7 +59,8 @@ WalkVerdict(e) ==
        At(S, what) == what \o ":" \o e.ops[First(S)] \o ":" \o e.strings[First(S) - 1] \o " -> " \o e.strings[First(S)]
    IN IF badParse # {} THEN "generator-invalid-vector"
       ELSE IF badRel # {} THEN "generator-step-not-in-relation:" \o e.ops[First(badRel)]
-      ELSE IF rejected # {} THEN "ok"          \* acceptance is C04's business
+      ELSE IF 1 \in rejected THEN "ok"         \* acceptance of the start vector is C04's business
+      ELSE IF rejected # {} THEN At(rejected, "rewritten-vector-rejected")     \* the rewrite is grammatical (checked above): its outputs are not "unchanged"
       ELSE IF scoreDiff # {} THEN At(scoreDiff, "scores-change")
       ELSE IF obsDiff # {} THEN At(obsDiff, "observables-change")
       ELSE IF eqDiff # {} THEN At(eqDiff, "not-equal")
